@@ -41,7 +41,7 @@ Step == IF IsClient(E.thr)
              /\ Worker(E.thr)
 
 Stutter == /\ \/ E.k \in MayStutter
-              \/ (E.k = "join_test" /\ IsClient(E.thr) /\ cop[E.thr - 100][1] = "stop")
+              \/ (E.k = "join_test" /\ IsClient(E.thr) /\ cop[E.thr - 100][1] \in {"stop", "clear"})
            /\ UNCHANGED vars
 
 Consume == /\ l <= Len(T.ev)
